@@ -1542,3 +1542,157 @@ twin('C20-twin-sanitise-inline', 'C20',
        "            output_log = sanitize_paths(copy.deepcopy(log.log))\n"
        "        else:\n"
        "            output_log = copy.deepcopy(log.log)\n")])
+
+
+# ----------------------------------------------------------------------
+# C04
+# ----------------------------------------------------------------------
+mutant('C04-unsorted-unique-types', 'C04',
+       'aggregate_votes no longer sorts the distinct reference types',
+       [(P+'type_assignment/election.py',
+         "    unq_types = list(set(reference_types))\n"
+         "    unq_types.sort()\n",
+         "    unq_types = list(set(reference_types))\n")],
+       'R-TAINT/order-to-sink')
+mutant('C04-no-reorder-manager-list', 'C04',
+       'the runner returns the shared list in completion order',
+       [(P+'type_assignment/election_runner.py',
+         "    result = re_order_blob(\n        results_blob=result,\n"
+         "        query_path=query_h5ad_path)\n\n", "")],
+       'R-TAINT/order-to-sink', 'run_type_assignment_on_h5ad')
+mutant('C04-buffers-in-listing-order', 'C04',
+       'the election reads its per-chunk files in directory order',
+       [(P+'type_assignment/election.py',
+         "        path_list = [n for n in buffer_dir.iterdir()]\n"
+         "        path_list.sort()\n",
+         "        path_list = [n for n in buffer_dir.iterdir()]\n")],
+       'R-PROV/merge-order', 'election')
+mutant('C04-otf-unsorted-listing', 'C04',
+       'the on-the-fly mapper passes reference marker files in listing '
+       'order (the defect fixed by the F5 commit)',
+       [(P+'cli/map_to_on_the_fly_markers.py',
+         "        reference_marker_files.sort()\n", "")],
+       'R-TAINT/order-to-sink')
+mutant('C04-merge-by-dict-of-set', 'C04',
+       'sparse-by-pair pieces are merged in the order of a set of keys',
+       [(P+'diff_exp/markers.py',
+         "        col0_values = list(tmp_path_dict.keys())\n"
+         "        col0_values.sort()\n",
+         "        col0_values = list(set(tmp_path_dict.keys()))\n")],
+       'R-PROV/merge-order', '_merge_sparse_by_pair_files')
+mutant('C04-mask-merge-unsorted', 'C04',
+       'p-value mask pieces are merged unsorted',
+       [(P+'diff_exp/p_value_mask.py',
+         "    idx_values = list(idx_to_path.keys())\n"
+         "    idx_values.sort()\n\n    indices_dtype",
+         "    idx_values = list(idx_to_path.keys())\n\n    indices_dtype")],
+       'R-PROV/merge-order', '_merge_masks')
+mutant('C04-unseeded-rng', 'C04',
+       'the mapping generator is created without a seed',
+       [(P+'cli/from_specified_markers.py',
+         "    rng = np.random.default_rng(type_assignment_config"
+         "['rng_seed'])\n",
+         "    rng = np.random.default_rng()\n")],
+       'R-PROV/seed')
+mutant('C04-clock-seed', 'C04',
+       'the mapping generator is seeded from the clock',
+       [(P+'cli/from_specified_markers.py',
+         "    rng = np.random.default_rng(type_assignment_config"
+         "['rng_seed'])\n",
+         "    rng = np.random.default_rng(int(time.time()))\n")],
+       'R-PROV/seed')
+mutant('C04-shared-rng', 'C04',
+       'all workers receive the dispatcher\'s generator itself',
+       [(P+'type_assignment/election.py',
+         "                    'rng': np.random.default_rng("
+         "rng.integers(99, 2**32)),\n",
+         "                    'rng': rng,\n")],
+       'R-PROV/seed/per-worker')
+mutant('C04-global-sampler', 'C04',
+       'the bootstrap subset is drawn with the global numpy sampler',
+       [(P+'type_assignment/election.py',
+         "        chosen_idx = rng.choice(marker_idx, n_bootstrap, "
+         "replace=False)\n",
+         "        chosen_idx = np.random.choice(marker_idx, n_bootstrap, "
+         "replace=False)\n")],
+       'R-PROV/seed/global-sampler')
+mutant('C04-nproc-into-bootstrap', 'C04',
+       'the number of bootstrap iterations depends on the worker count',
+       [(P+'type_assignment/election.py',
+         "                    'bootstrap_iteration': bootstrap_iteration,\n",
+         "                    'bootstrap_iteration': max(\n"
+         "                        bootstrap_iteration, n_processors),\n")],
+       'R-PROV/worker-count-influence')
+mutant('C04-marker-cache-no-cosort', 'C04',
+       'the marker cache groups are written in set order (co-sort '
+       'removed)',
+       [(P+'type_assignment/marker_cache_v2.py',
+         "                sorted_dex = np.argsort(these_reference)\n"
+         "                these_reference = these_reference[sorted_dex]\n"
+         "                these_query = these_query[sorted_dex]\n", "")],
+       'R-TAINT/order-to-sink', 'write_query_markers_to_h5')
+mutant('C04-first-match-over-set', 'C04',
+       'validate_marker_lookup picks the first element of a set',
+       [(P+'type_assignment/election.py',
+         "    reference_types = np.array(reference_types)\n"
+         "    unq_types = list(set(reference_types))\n",
+         "    reference_types = np.array(reference_types)\n"
+         "    first_type = next(iter(set(reference_types)))\n"
+         "    reference_types[0] = first_type\n"
+         "    unq_types = list(set(reference_types))\n")],
+       'R-TAINT/order-to-sink')
+
+twin('C04-twin-sorted-call', 'C04',
+     'sorted(set(x)) instead of list(set(x)); .sort()',
+     [(P+'type_assignment/election.py',
+       "    unq_types = list(set(reference_types))\n"
+       "    unq_types.sort()\n",
+       "    unq_types = sorted(set(reference_types))\n")])
+twin('C04-twin-extra-sort', 'C04', 'a redundant extra sort',
+     [(P+'diff_exp/p_value_mask.py',
+       "    idx_values = list(idx_to_path.keys())\n"
+       "    idx_values.sort()\n\n    indices_dtype",
+       "    idx_values = list(idx_to_path.keys())\n"
+       "    idx_values.sort()\n    idx_values = sorted(idx_values)\n\n"
+       "    indices_dtype")])
+twin('C04-twin-set-membership', 'C04',
+     'a new set used only for membership tests',
+     [(P+'type_assignment/election.py',
+       "    n_query = vote_array.shape[0]\n",
+       "    known = set(unq_types)\n"
+       "    assert all(t in known for t in reference_types)\n"
+       "    n_query = vote_array.shape[0]\n")])
+twin('C04-twin-dict-sort-only', 'C04',
+     'sparse-by-pair merge keys taken from the dict without the set '
+     '(dict keys are insertion ordered; the sort stays)',
+     [(P+'diff_exp/markers.py',
+       "        col0_values = list(tmp_path_dict.keys())\n"
+       "        col0_values.sort()\n",
+       "        col0_values = [k for k in tmp_path_dict]\n"
+       "        col0_values.sort()\n")])
+twin('C04-twin-spawned-seed', 'C04',
+     'per-worker generator seeded through an intermediate variable',
+     [(P+'type_assignment/election.py',
+       "        p = multiprocessing.Process(\n"
+       "                target=_run_type_assignment_on_h5ad_worker,\n",
+       "        worker_seed = rng.integers(99, 2**32)\n"
+       "        p = multiprocessing.Process(\n"
+       "                target=_run_type_assignment_on_h5ad_worker,\n"),
+      (P+'type_assignment/election.py',
+       "                    'rng': np.random.default_rng("
+       "rng.integers(99, 2**32)),\n",
+       "                    'rng': np.random.default_rng(worker_seed),\n")])
+
+twin('C04-twin-flatten-unsorted', 'C04',
+     'the flattened marker list is not sorted (every consumer treats it '
+     'as a set and the cache writer co-sorts)',
+     [(P+'cli/from_specified_markers.py',
+       "        all_markers = list(all_markers)\n"
+       "        all_markers.sort()\n",
+       "        all_markers = list(all_markers)\n")])
+twin('C17-twin-flatten-unsorted', 'C17',
+     'the flattened marker list is not sorted',
+     [(P+'cli/from_specified_markers.py',
+       "        all_markers = list(all_markers)\n"
+       "        all_markers.sort()\n",
+       "        all_markers = list(all_markers)\n")])
